@@ -424,6 +424,30 @@ func init() {
 		l.p("/-- `mergeDescs` reads the live offset once per descriptor, stats the file again (conditionally) after that read")
 		l.p("and refreshes `LastSeenSize` from that stat before it decides (fix f247e22) -/")
 		l.p("def mergeRestatsAfterOffset : Bool := %s", leanBool(restat))
+		// --- fix e59ee79: the state file is written aside and renamed over (storage.fileStorage.WriteData) ----------------
+		atomicState := false
+		stp := loadFlowPkg("pkg/storage")
+		if fd := stp.method("fileStorage", "WriteData"); fd == nil {
+			problem("storage.fileStorage.WriteData not found")
+		} else {
+			evs := stp.flatten(fd, 2)
+			iWrite := -1
+			for i, e := range evs {
+				if e.kind == "call" && (e.name == "WriteFile" || e.name == "Write") && iWrite < 0 {
+					iWrite = i
+				}
+			}
+			if iWrite < 0 {
+				problem("storage.fileStorage.WriteData: no WriteFile / Write call found")
+			}
+			for i, e := range evs {
+				if e.kind == "call" && e.name == "Rename" && iWrite >= 0 && i > iWrite {
+					atomicState = true
+				}
+			}
+		}
+		l.p("/-- `fileStorage.WriteData` writes the new content to another name and renames it over the state file (fix e59ee79) -/")
+		l.p("def stateFileReplacedAtomically : Bool := %s", leanBool(atomicState))
 		l.write()
 	}
 }
